@@ -1146,9 +1146,19 @@ impl World for BuilderWorld {
             let total = (case.n + case.dups.len()) as u64;
             let d = o.disk.clone().unwrap_or_default();
             let placements = c17_placements(case, o.key_passes, total, o.rewinds.div_ceil(2).max(o.key_passes.saturating_sub(1)), d.bytes_written, d.bytes_read);
+            // a reference run with hundreds of natural retries makes every placement that expensive: such
+            // templates are thinned to about 150 placements (recorded in the evidence)
+            let placements: Vec<BuilderCase> = if o.key_passes > 40 && placements.len() > 150 {
+                out.probe("c17.thinned_templates", 1);
+                let k = placements.len().div_ceil(150);
+                placements.into_iter().step_by(k).collect()
+            } else {
+                placements
+            };
             out.probe("c17.placements", placements.len() as u64);
             out.probe("c17.templates", 1);
             for p in placements {
+                progress();
                 let mut sub = Outcome::default();
                 let pobs = run_scheduled(&p, &mut sub);
                 out.steps += sub.steps;
